@@ -193,6 +193,16 @@ inductive ActRes
 def infoKnown (w : Str) : Bool := infoWordsLower.contains w
 def debugKnown (w : Str) : Bool := debugWordsLower.contains w
 
+/-- `--filter=RULE` (OPT_FILTER): the rule text goes to the sender as it is, which reads `- NAME` as an exclude rule,
+`+ NAME` as an include rule, `!` as the list-clearing rule (refused there) and *anything else as a name to exclude*;
+so anything else is refused here -/
+def filterArgOk (arg : Str) : Bool :=
+  match arg with
+  | '-' :: ' ' :: _ => true
+  | '+' :: ' ' :: _ => true
+  | ['!'] => true
+  | _ => false
+
 def runActs (arg : Str) : List Act → St → ActRes
   | [], s => .next s
   | a :: rest, s =>
@@ -203,6 +213,7 @@ def runActs (arg : Str) : List Act → St → ActRes
     | .requireNonzero f => if s.ints f = 0 then .stop .err else runActs arg rest s
     | .setStr _ => runActs arg rest s
     | .rule pfx => runActs arg rest { s with rules := s.rules ++ [pfx ++ arg] }
+    | .ruleChecked => if filterArgOk arg then runActs arg rest { s with rules := s.rules ++ [arg] } else .stop .err
     | .words w => if wordsExit (match w with | .info => infoKnown | .debug => debugKnown) (splitComma arg) then .stop .exit else runActs arg rest s
     | .version => runActs arg rest { s with version := true }
     | .daemonMode => .daemon s
@@ -266,6 +277,9 @@ def daemonAllRows : List Row := gokrDaemonRows ++ daemonRows
 def finish (nargs : Nat) (s : St) : Res :=
   if s.version then .exit
   else if s.ints .f_human_readable > 1 ∧ nargs = 1 then .exit
+  -- "--delete does not work without --recursive (-r)": the deletion pass walks the whole destination (the code tests
+  -- this after the two assignments to xfer_dirs below, which touch neither field)
+  else if s.ints .f_delete_mode ≠ 0 ∧ s.ints .f_recurse = 0 then .err
   else
     let s := if s.ints .f_recurse ≠ 0 then s.set .f_xfer_dirs 1 else s
     let s := if s.ints .f_xfer_dirs < 0 then s.set .f_xfer_dirs 0 else s
